@@ -137,6 +137,13 @@ let handle (line : string) : string =
     let (m, ok) = M.handle_reinit (nat outer) M.fresh_rmach ops in
     let shares = List.sort compare (List.map (fun r -> int_of_n (M.N.of_nat r)) m.M.rm_shares) in
     "airreinit " ^ (if ok then "processed" else "refused") ^ " shares=" ^ String.concat "," (List.map string_of_int shares)
+  | "resetpoll" :: n :: k :: p :: _ ->
+    (* resetpoll <n> <k> <p>: board of n messages, k handled, the reset served after p poller steps *)
+    let nat s = M.N.to_nat (n_of_int (int_of_string s)) in
+    let q = M.N.to_nat (n_of_int (4 * int_of_string n + 8)) in
+    let w = M.reset_after (nat n) (nat k) (nat p) q in
+    Printf.sprintf "resetpoll offset=%d replayed=%s" (int_of_n (M.N.of_nat w.M.w_new.M.d_off))
+      (if M.replayed_all (nat n) w then "all" else "lost")
   | "c04lock" :: _ -> "c04lock waits=" ^ (if M.tick_waits_during_command then "true" else "false")
   | "c04gap" :: _ -> "c04gap saved-without-password=" ^ (if M.gap_saves_without_password then "true" else "false")
   | "c04rounds" :: t1 :: m1 :: t2 :: m2 :: _ ->
